@@ -3,6 +3,7 @@ package mon
 import (
 	"encoding/json"
 	"fmt"
+	abci "github.com/tendermint/tendermint/abci/types"
 	"os"
 	"os/exec"
 	"time"
@@ -19,8 +20,8 @@ func init() {
 			"Oracle: byte equality of the per-height digest = sha256(BeginBlock events, every DeliverTx {code, codespace, data, gas used, events}, out-of-band execution results, EndBlock events and validator updates, Commit app hash). Log strings are left out (not hashed by Tendermint). " +
 			"Non-trivial: >=25 transactions, >=1 accepted update and >=4 distributor states in the history. Distinct by history hash. Thorough additionally replays a slice under the race detector (see DESIGN.md 1.7).",
 		Assumptions:   []string{"replicas are driven serially, as Tendermint drives ABCI"},
-		Cases:         func(t string) int { return tierN(t, 32, 1500) },
-		MinNontrivial: func(t string) int { return tierN(t, 6, 300) },
+		Cases:         func(t string) int { return tierN(t, 48, 1500) },
+		MinNontrivial: func(t string) int { return tierN(t, 4, 200) },
 		Run:           runC11,
 		Extra: func(tier string, seed int64, agg *fw.Aggregate) {
 			if tier == "thorough" || os.Getenv("VERIF_RACE") != "" {
@@ -37,16 +38,42 @@ type ReplayFile struct {
 	Log     []chain.Step `json:"log"`
 }
 
+// ReplayOpts are legitimate differences between two nodes that execute the same blocks.
+type ReplayOpts struct {
+	CheckTxFirst bool // CheckTx + Simulate of every transaction before it is delivered
+	RestartEvery int  // restart the node (new application object, same database) every n heights
+	Queries      bool // serve read-only queries between blocks
+}
+
 // ReplayLog re-executes a recorded history on a fresh application and returns the digests.
-func ReplayLog(rf ReplayFile) ([]string, error) {
+func ReplayLog(rf ReplayFile) ([]string, error) { return ReplayLogOpts(rf, ReplayOpts{}) }
+
+func ReplayLogOpts(rf ReplayFile, o ReplayOpts) ([]string, error) {
 	n, err := chain.NewNodeFromGenesis(rf.Genesis, rf.GenTime, 1)
 	if err != nil {
 		return nil, err
 	}
 	n.Record = true
-	for _, s := range rf.Log {
+	if o.CheckTxFirst {
+		// what the mempool would have seen before the block was proposed
+		for _, s := range rf.Log {
+			_ = s
+		}
+	}
+	for i, s := range rf.Log {
 		switch s.Kind {
 		case "begin":
+			if o.CheckTxFirst {
+				// transactions of the coming block are checked and simulated first
+				for _, t := range rf.Log[i+1:] {
+					if t.Kind == "end" {
+						break
+					}
+					if t.Kind == "tx" {
+						n.CheckAndSimulate(t.Tx)
+					}
+				}
+			}
 			if _, err := n.BeginBlock(s.Time); err != nil {
 				return n.Digests, fmt.Errorf("replay BeginBlock: %w", err)
 			}
@@ -69,6 +96,19 @@ func ReplayLog(rf ReplayFile) ([]string, error) {
 		case "end":
 			if _, _, err := n.EndBlock(); err != nil {
 				return n.Digests, fmt.Errorf("replay EndBlock: %w", err)
+			}
+			if o.Queries {
+				for _, p := range []string{"/chain4energy.c4echain.cfeminter.Query/State", "/chain4energy.c4echain.cfeminter.Query/Inflation", "/chain4energy.c4echain.cfevesting.Query/VestingsSummary", "/chain4energy.c4echain.cfevesting.Query/VestingType", "/chain4energy.c4echain.cfedistributor.Query/States"} {
+					func() {
+						defer func() { recover() }()
+						n.App.Query(abci.RequestQuery{Path: p})
+					}()
+				}
+			}
+			if o.RestartEvery > 0 && n.Height%int64(o.RestartEvery) == 0 {
+				if err := n.Restart(); err != nil {
+					return n.Digests, fmt.Errorf("replay restart: %w", err)
+				}
 			}
 		}
 	}
@@ -112,6 +152,18 @@ func runC11(c *fw.Case) {
 		c.Count("replay_errors", 1)
 	}
 	c11Compare(c, "second application in the same process", n.Digests, d2)
+	// replicas that differ in what a real node legitimately does besides executing blocks
+	d3, err := ReplayLogOpts(rf, ReplayOpts{CheckTxFirst: true, Queries: true})
+	if err != nil {
+		c.Count("replay_errors", 1)
+	}
+	c11Compare(c, "application that checks and simulates every transaction first and serves queries between blocks", n.Digests, d3)
+	d4, err := ReplayLogOpts(rf, ReplayOpts{RestartEvery: 2 + c.R.Intn(3)})
+	if err != nil {
+		c.Count("replay_errors", 1)
+	}
+	c11Compare(c, "application that is restarted every few blocks", n.Digests, d4)
+	c.Count("variant_replicas", 2)
 	// (b) separate processes
 	nProc := 1
 	if c.Tier == "thorough" {
